@@ -2,7 +2,7 @@
 from .. import protocol, pipeline, netbal
 
 ID = 'C07'
-PROP_FILES = ['C07', 'SendBalLemmas', 'SendBalInv', 'SendPubLemmas', 'C04OnePublish', 'NetBalBase', 'NetBalRecv', 'NetBalSend', 'NetBalInv', 'C07NetBal']
+PROP_FILES = ['C07', 'SendBalLemmas', 'SendBalInv', 'SendPubLemmas', 'C04OnePublish', 'NetBalBase', 'NetBalRecv', 'NetBalSend', 'NetBalInv', 'C07NetBal', 'C07AnyState']
 MODULES = ['OFModel.Zmq.Receiver', 'OFModel.Zmq.Sender', 'OFModel.Zmq.Net', 'OFModel.Zmq.NetBal', 'OFModel.Gen.Facts']
 RULE = ('balanced receivers (2-4 synchronised sources, disjoint or clashing worker ids, bal flags 1/2, random interleavings, several ready sources per poll, '
         'time-outs between any two messages) and balanced senders (2-3 bound outputs, 1-4 clients spread over them, duplicated/stale/ahead requests, evictions); '
